@@ -411,8 +411,24 @@ def check_views(ctx, unit):
                     if cs.kind == "BinaryOperator" and cs.op == "<" and truth and path(cs.children[1]) == ("this", "_length"):
                         b = True
                 ok = ok and g and b
+            # the length compared with _length must be the other operand's complete length
+            full = True
+            for blk in f.blocks.values():
+                if blk.cond is None:
+                    continue
+                c = f.node(blk.cond).strip()
+                if c.kind == "BinaryOperator" and c.op in ("!=", "==") and path(c.children[0]) == ("this", "_length"):
+                    r = RA.resolve_local(f, c.children[1])
+                    r = std_unwrap(r)
+                    nm = r.callee["n"] if (r.is_call() and r.callee) else None
+                    if nm not in ("size", "generic_strlen", "strlen"):
+                        full = False
+                    elif nm in ("generic_strlen", "strlen") and len(r.args) != 1:
+                        full = False
+            ok = ok and full
             ctx.inst("E.compare-length-first", f.sig, ok, f.loc,
-                     "every character access dominated by (lengths equal) and (i < _length): %s" % ok, f)
+                     "every character access dominated by (lengths equal) and (i < _length): %s; the other length is a complete "
+                     "length (size()/strlen, not a bounded scan): %s" % (ok, full), f)
 
 
 def _eq_lengths(cond, truth):
@@ -467,14 +483,32 @@ def check_accumulation(ctx, rule, fns, label=None):
             k += 1
             signed = bool(tgt.strip().get("sgn")) or any(x.get("sgn") for x in arith)
             guarded = False
+            bound = None
             for cond, truth in flow.facts_at(f, n.id):
-                for x in cond.walk():
-                    if x.kind in ("BinaryOperator",) and x.op in ("<", "<=", ">", ">=") and any(path(y) == tp for y in x.walk()):
-                        guarded = True
+                c, t = cond.strip(), truth
+                while c.kind == "UnaryOperator" and c.op == "!":
+                    c, t = c.children[0].strip(), not t
+                if c.kind == "BinaryOperator" and c.op in ("<", "<=", ">", ">=") and path(c.children[0]) == tp:
+                    k = c.children[1].strip().cv()
+                    if k is not None:
+                        op = c.op if t else {"<": ">=", "<=": ">", ">": "<=", ">=": "<"}[c.op]
+                        if op == "<=":
+                            bound = k if bound is None else min(bound, k)
+                        elif op == "<":
+                            bound = k - 1 if bound is None else min(bound, k - 1)
+            bits = tgt.strip().get("bits") or 32
+            tmax = (1 << (bits - 1)) - 1
+            mul = any(x.op in ("*", "*=") for x in arith) or (n.kind == "CompoundAssignOperator" and n.op == "*=")
+            if bound is not None:
+                # the digit step is acc*10 + d with d <= 9: it must fit for every accumulator value the guard admits
+                guarded = (bound * 10 + 9 <= tmax) if (mul or _has_mul_sibling(f, tp, cyc)) else (bound + 9 <= tmax)
+                if mul is False and _has_mul_sibling(f, tp, cyc):
+                    guarded = True if bound * 10 + 9 <= tmax else False
             ctx.inst(rule, "%s: accumulation #%d into %s" % (label(f) if label else f.sig, k, _clean(tp)),
                      (not signed) or guarded, n.loc,
                      "accumulator type is %s; %s" % ("signed" if signed else "unsigned",
-                                                     "bounded by a dominating comparison" if guarded else
+                                                     ("bounded by a dominating comparison that keeps acc*10+9 within the type (acc <= %s)" % bound) if guarded else
+                                                     ("guard admits acc <= %s, for which acc*10+9 overflows" % bound) if (signed and bound is not None) else
                                                      ("signed overflow on long digit strings is undefined behaviour" if signed else "wraps, defined")), f)
 
 
@@ -488,3 +522,20 @@ def _has_mul_sibling(f, tp, cyc):
 def _clean(tp):
     import re
     return re.sub(r"#\d+", "", ".".join(tp))
+
+
+def check_free_after_copies(ctx, unit, rule="O.free-after-copies"):
+    """A mutator that builds a new buffer releases the old one only after every copy into the new buffer:
+    the appended view may alias the old buffer (s += s, s += s.sub_string(..))."""
+    ctx.rule(rule, "in basic_string mutators no memcpy can execute after the old buffer was freed (sources may alias it)", 3)
+    for rec in recs_of(unit, STR):
+        for f in cls_fns(unit, rec["qn"]):
+            frees = [n for n in f.events() if n.kind == "CXXMemberCallExpr" and n.callee and n.callee["n"] in ("free", "deallocate")
+                     and n.args and path(n.args[0]) == ("this", "_buffer")]
+            cps = [n for n in f.events() if n.is_call() and n.callee and n.callee["n"] in ("memcpy", "__builtin_memcpy")]
+            if not frees or not cps or f.kind == "dtor":
+                continue
+            bad = [c for c in cps for fr in frees if f.reaches(fr.id, c.id)]
+            ctx.inst(rule, f.sig, not bad, f.loc,
+                     ("memcpy at %s can run after the old buffer was released" % bad[0].loc) if bad else
+                     "%d copies, all before the release of the old buffer" % len(cps), f)
